@@ -84,7 +84,8 @@ void uninstall() { g_cfg = Config(); }
 
 static std::string phase_string() {
     return std::to_string(g_st.loop_heads) + ":" + std::to_string(g_st.steps_done) + ":" +
-           (g_st.after_loop ? "post" : (g_st.in_loop ? "loop" : "setup")) + ":" + std::to_string(g_st.point_hits);
+           (g_st.after_loop ? "post" : (g_st.in_loop ? "loop" : "setup")) + ":" + std::to_string(g_st.point_hits) +
+           ":" + (g_st.report_decided ? "1" : "0");
 }
 
 static void maybe_raise(const std::vector<long>& list, long idx, const char* kind, const char* label) {
@@ -114,6 +115,8 @@ extern "C" void inovesa_verif_point(const char* label) {
     g_st.evhash = sim::hash_str(label, g_st.evhash);
     if (g_cfg.text_log) { g_st.text += "P "; g_st.text += label; g_st.text += '\n'; }
     if (!g_cfg.sigint_points.empty()) maybe_raise(g_cfg.sigint_points, idx, "point", label);
+    // a signal raised at "before_report" itself still precedes the Aborted/Finished decision
+    if (!strcmp(label, "before_report")) g_st.report_decided = true;
 }
 
 // ------------------------------------------------------------------ S5: entropy
